@@ -68,6 +68,17 @@ CHECKS["C20"] = H("C20", "All histories up to the depth bound of a POP3 session 
    "through the real POP3ClientProxy interleaved with IMAP append / expunge-first / expunge-last / move / pack on the same INBOX, with bodies containing dot lines, a lone dot and no final newline. "
    "Numbers, sizes and UIDL values stay fixed, UIDL = IMAP UIDs at login, RETR never delivers another message, announced size = un-stuffed octets delivered, "
    "replies are correctly stuffed and terminated, only a QUIT removes exactly the marked messages.")
+E_NOTE = "Trusted: the generators and reference models named in the text, the virtual loop and seams where a server is involved, the independent response tokenizer. Bounded input spaces as stated in the evidence."
+def E(pid, text, tech="bounded exhaustive input enumeration against a reference model"):
+    return dict(cat="exploration", engine="E-input-enumeration", tech=tech, text=text, note=E_NOTE, ref=f"DESIGN.md section 4 {pid}")
+CHECKS["C08"] = E("C08", "Every sentence of a bounded command grammar (all commands and UID forms, astrings as atom/quoted-with-escapes/literal/literal+, sequence sets, flag lists, "
+   "25 fetch items with sections and partials, search keys nested to depth 2/3, LIST-EXTENDED, APPEND with flags/date/literal) is generated with its meaning and must be accepted, "
+   "fully consumed and decoded to that meaning by the real parser; every truncation and single-point edit (thorough: double edits of short sentences) of the core sentences must parse "
+   "or raise BadCommand; rejected sentences replayed through the real IMAPClientProxy.run() must get BAD and leave the connection usable.",
+   tech="grammar-directed exhaustive sentence generation + exhaustive single-edit mutation")
+CHECKS["C09"] = E("C09", "Every path of <=3 (thorough: <=4) components over {.., ., '', a, inbox, decoy, secret} with prefixes {'', '/', '//'} in atom/quoted/literal encoding is put into "
+   "every mailbox-name position of 27 commands (incl. LIST/LSUB reference and patterns with wildcards) on a jail whose neighbour folder holds token-tagged mail; everything outside the "
+   "mail root must stay byte-identical, no response may carry the neighbour's content, counts or names, names with no inside reading must be refused, no DB row may name an outside path.")
 NOT_YET = {}
 
 def main():
